@@ -97,7 +97,7 @@ def PSR {σ : Type} (R : σ → σ → Prop) (p p' : PS σ) : Prop := p'.stack =
 section sim
 variable {σ : Type} {c : PCtx σ} {R : σ → σ → Prop}
 
-theorem closeFixup_error (url : Option Str) (line : Nat) (e : Fail) :
+theorem closeFixup_error_ex (url : Option Str) (line : Nat) (e : Fail) :
     ∃ f, closeFixup (σ := σ) url line (.error e) = .error f := by
   cases e with
   | cfg er =>
@@ -114,7 +114,7 @@ theorem closeFixup_simE (url : Option Str) (line : Nat) {x y : M σ} (h : ExRel 
   cases x <;> cases y
   · have he : _ = _ := h
     subst he
-    obtain ⟨f, hf⟩ := closeFixup_error (σ := σ) url line ‹Fail›
+    obtain ⟨f, hf⟩ := closeFixup_error_ex (σ := σ) url line ‹Fail›
     rw [hf]
     rfl
   · exact h.elim
